@@ -1,6 +1,6 @@
 SPECIFICATION Spec
 CONSTANTS
-  Families = {"wire", "mix2"}
+  Families = {"wire", "frac", "mix2"}
   Big = FALSE
   Faithful = TRUE
 INVARIANTS TypeOK CarriesSame RefIsEncoding ViewDiffLocal DevOnlyWhereViewsDiffer DeviationsConfined DecoderFacts
